@@ -137,7 +137,11 @@ func genTTHParams(r *rand.Rand) tthParams {
 		p.Proto = []byte{0, 3, 4, 0x10, 0x11}[r.Intn(5)]
 	}
 	str := func() string {
-		switch r.Intn(12) {
+		switch r.Intn(14) {
+		case 12: // keys that resemble the ACL-token key
+			return []string{"rpc_transit_gdpr-token", "RPC_TRANSIT_GDPR-TOKEN", "RPC_TRANSIT_gdpr-toke", "RPC_TRANSIT_gdpr-token2", "Rpc_Transit_Gdpr-Token", "gdpr-token"}[r.Intn(6)]
+		case 13:
+			return string(gen.Bytes(r, 255+r.Intn(3)))
 		case 0:
 			return ""
 		case 1:
@@ -334,6 +338,27 @@ func c06Check(cs *drv.Case, p tthParams, payloadLen int, sched int) {
 		fail("payload-delimiting", "bytes after the header are not the payload (err=%v)", err)
 	}
 	dr.Release(nil)
+	// two frames back-to-back on one reader without a Release in between: the second decode must
+	// report lengths of the second frame, whatever the reader has consumed before
+	{
+		two := append(append([]byte(nil), sink.All()[pre:]...), sink.All()[pre:]...)
+		rd2 := bufiox.NewDefaultReader(&doubles.Source{Data: two, Len: len(two), ErrAt: len(two), Err: io.EOF, Sched: sched, R: cs.R, Budget: 10*len(two) + 100000})
+		ok2 := true
+		for k := 0; k < 2 && ok2; k++ {
+			before := rd2.ReadLen()
+			d2, e2 := ttheader.Decode(ctx, rd2)
+			if e2 != nil || d2.HeaderLen != len(buf) || d2.PayloadLen != payloadLen || rd2.ReadLen()-before != len(buf) {
+				fail("second-frame-lengths", "frame #%d on one unreleased reader: err=%v HeaderLen=%d PayloadLen=%d consumed=%d, want %d / %d / %d", k+1, e2, d2.HeaderLen, d2.PayloadLen, rd2.ReadLen()-before, len(buf), payloadLen, len(buf))
+				ok2 = false
+				break
+			}
+			rd2.Skip(payloadLen)
+		}
+		rd2.Release(nil)
+		if !ok2 {
+			return
+		}
+	}
 	// the decoded parameters are values: they must not change when the reader has been released,
 	// its pool buffers are reused by somebody else, and the caller recycles the input slice
 	for k := range frame {
